@@ -1,6 +1,6 @@
 ------------------------------ MODULE C09Trace ------------------------------
 (* V mode for C09: judge control.Marshal / Unmarshal on the probe struct types. *)
-EXTENDS Deb822Struct, TraceLib
+EXTENDS Deb822Struct, TraceLib, LongTrace
 VARIABLES l, verdict
 vars == <<l, verdict>>
 
@@ -90,6 +90,6 @@ Judge(rec) ==
       [] OTHER -> V(FALSE, "unknown-event", "unknown event")
 
 Init == l \in 1..Len(Trace) /\ verdict = Pending
-Next == verdict.class = "pending" /\ verdict' = Judge(Trace[l]) /\ UNCHANGED l
+Next == verdict.class = "pending" /\ verdict' = JudgeOrCrash(Trace[l], LAMBDA r : IF IsLong(r) THEN JudgeLong(r) ELSE Judge(r)) /\ UNCHANGED l
 Spec == Init /\ [][Next]_vars
 =============================================================================
